@@ -193,6 +193,7 @@ class SymBytes:
                 nlen = n
             t = z3.SubSeq(self.t, lo.t, n.t)
             r = SymBytes(t, nlen, self.mutable)
+            r.origin = (self, lo, n)
             if core.active():
                 core.cur().add_fact(z3.Length(t) == n.t)
             return r
